@@ -213,6 +213,15 @@ def check_seeds(ctx, facts, rule, table):
 
 # ---------------------------------------------------------------------------------- structure
 
+def before(fn, a, b):
+    """a comes before b in the (pre-order) text of the function — line numbers do not order nodes brought in from a helper"""
+    pos = fn.get("_pos")
+    if pos is None:
+        pos = {id(x): i for i, x in enumerate(tree_of(fn).nodes)}
+        fn["_pos"] = pos
+    return pos.get(id(a), -1) < pos.get(id(b), -1)
+
+
 def stmt_path(tree, n):
     """[(block, statement-level child)] from the root block down to n"""
     chain = [n] + list(tree.ancestors(n))
@@ -315,6 +324,30 @@ def loop_exits(fn, loop):
                 kind = "guard"
             if loop["src"] == "ForLoop" and hirq.from_expansion(n):
                 kind = "iterator-exhausted"
+            if loop["src"] == "Loop" and kind == "break":
+                # `loop { if c { break; } body }` is `while !c { body }`: the leading break is the guard
+                stmts0 = [s_ for s_ in body["stmts"] if not hirq.in_log_macro(s_)]
+                first0 = stmts0[0] if stmts0 else body.get("expr")
+                if first0 is not None and first0["k"] == "If" and "e" not in first0:
+                    tb = first0["t"]
+                    only = (tb["stmts"] + ([tb["expr"]] if "expr" in tb else [])) if tb["k"] == "Block" else [tb]
+                    only = [s_ for s_ in only if not hirq.in_log_macro(s_)]
+                    if len(only) == 1 and only[0] is n:
+                        kind = "guard"
+                # `let x = match it.next() { Some(v) => v, None => break };` at the top of the body: the iterator is exhausted
+                for a in t.ancestors(n):
+                    if a is loop:
+                        break
+                    if a["k"] == "Match" and a.get("src") == "Normal":
+                        scr = nf.strip(a["e"])
+                        arm = [ar for ar in a["arms"] if t.contains(ar["body"], n)]
+                        others = [ar for ar in a["arms"] if ar is not (arm[0] if arm else None)]
+                        if scr["k"] == "MethodCall" and scr["name"] == "next" and not scr["args"] and arm and len(a["arms"]) == 2 and \
+                                hirq.show_pat(others[0]["pat"]).startswith("Some(") and nf.strip(arm[0]["body"]) is n:
+                            par = t.parent.get(id(a))
+                            if par is not None and par["k"] == "Let" and any(s_ is par for s_ in stmts0[:1]):
+                                kind = "iterator-exhausted"
+                        break
             out.append((kind, n))
         elif n["k"] == "Ret":
             out.append(("return", n))
@@ -373,14 +406,23 @@ def def_exprs(fn, local_name):
     return out
 
 
-def is_max_bound(fn, expr_nf_str, tracker_fields):
+def is_max_bound(fn, expr_nf_str, tracker_fields, _depth=0):
     """expr is `self.<tracker>.get_max_value()` or a local all of whose definitions are such calls"""
     for tf in tracker_fields:
         if expr_nf_str == "self.%s.get_max_value()" % tf:
             return True
-    if re.match(r"^[A-Za-z_][A-Za-z0-9_]*$", expr_nf_str):
+    if re.match(r"^[A-Za-z_][A-Za-z0-9_]*$", expr_nf_str) and _depth < 4:
         ds = def_exprs(fn, expr_nf_str)
-        if ds and all(n["k"] != "AssignOp" and any(nf.nf(n) == "self.%s.get_max_value()" % tf for tf in tracker_fields) for n in ds):
+
+        def ok_def(n):
+            if n["k"] == "AssignOp":
+                return False
+            s_ = nf.nf(n)
+            if any(s_ == "self.%s.get_max_value()" % tf for tf in tracker_fields):
+                return True
+            # handed over from another local that is itself such a bound (a parameter of an inlined helper)
+            return s_ != expr_nf_str and re.match(r"^[A-Za-z_][A-Za-z0-9_]*$", s_) is not None and is_max_bound(fn, s_, tracker_fields, _depth + 1)
+        if ds and all(ok_def(n) for n in ds):
             return True
     return False
 
